@@ -353,7 +353,10 @@ func (r *committedReader) waitForHW(ctx context.Context, hw int64) error {
 		r.cl.removeHWWaiter(r)
 		return io.EOF
 	case readonly := <-wait:
-		if readonly {
+		// The log might have been set back to writable and written to since
+		// the signal was sent, so only end the reader if it still holds.
+		// Otherwise the caller syncs the HW and waits again.
+		if readonly && r.cl.isReadonlyEnd(hw) {
 			return ErrCommitLogReadonly
 		}
 		return nil
